@@ -27,6 +27,7 @@ type rwCase struct {
 	Method  string   `json:"method"`
 	Flusher *bool    `json:"flusher,omitempty"` // whether the underlying writer implements http.Flusher (default true)
 	Steps   []rwStep `json:"steps"`
+	Wrap    int      `json:"wrap,omitempty"` // 3: the writer handed to NewResponseWriter is itself a flamego ResponseWriter (created for GET), e.g. a nested Flame; 1, 2: it is not
 }
 
 // rwSpyPlain is the same spy without Flush / Push: an underlying writer that is only an http.ResponseWriter.
@@ -79,11 +80,18 @@ func rwReplay(raw json.RawMessage, idx int, tr *traceWriter) {
 	if err := json.Unmarshal(raw, &c); err != nil {
 		panic(err)
 	}
-	tr.emit(map[string]interface{}{"ev": "reset", "case": idx, "method": c.Method, "input": raw})
+	if c.Wrap == 0 {
+		c.Wrap = 1 + (idx+len(c.Steps))%3
+	}
+	tr.emit(map[string]interface{}{"ev": "reset", "case": idx, "method": c.Method, "input": c})
 	spy := &rwSpy{hdr: http.Header{}}
 	var under http.ResponseWriter = spy
 	if c.Flusher != nil && !*c.Flusher {
 		under = rwSpyPlain{spy}
+	}
+	if c.Wrap == 3 {
+		// a transparent layer: what the outer writer (the one under test, created for c.Method) forwards is what reaches the spy
+		under = flamego.NewResponseWriter("GET", under)
 	}
 	w := flamego.NewResponseWriter(c.Method, under)
 	for _, st := range c.Steps {
